@@ -154,6 +154,74 @@ func VerifHarness_C07_TemplateGlue() {
 	vsymReach("C07_template_glue")
 }
 
+// C07-O3b: template binding.  Templates of the simple fragment (literal text,
+// {{ .label }}, {{ __line__ }}, {{ __timestamp__.Unix }}, {{ x | fn }} with fn
+// a repo function) are evaluated precisely by the engine, FuncMap closures
+// included, so what __line__ / __timestamp__ are bound to is followed for
+// real: every stage expands over the line and time IT is given, also when the
+// same template source is used by several stages or built twice.
+func VerifHarness_C07_TemplateBinding() {
+	foo := vsymString("foo", 1)
+	line := vsymString("line", 2)
+	set := newLabelSet()
+	set.Set("foo", pcommon.NewValueStr(foo))
+	const ts1, ts2 = 1700000001_000000000, 1700000002_000000000
+	switch vsymChoice("case", 5) {
+	case 0: // the same line template twice in one pipeline
+		const tmpl = `[{{ __line__ }}|{{ .foo }}]`
+		p, err := BuildPipeline(&logql.LineFormat{Template: tmpl}, &logql.LineFormat{Template: tmpl})
+		vsymAssert(err == nil, "pipeline builds")
+		out, keep := p.Process(ts1, line, set)
+		vsymAssert(keep && verifNoErr(set), "line_format keeps the line and raises no error")
+		vsymAssert(out == "[["+line+"|"+foo+"]|"+foo+"]", "the second line_format expands over the first one's output")
+	case 1: // the same source built twice, run over different records
+		const tmpl = `{{ __timestamp__.Unix }}: {{ __line__ }}`
+		a, err := buildLineFormat(&logql.LineFormat{Template: tmpl})
+		vsymAssert(err == nil, "line_format builds")
+		out, _ := a.Process(ts1, line, set)
+		vsymAssert(out == "1700000001: "+line, "__timestamp__ and __line__ are the current record's")
+		b, err := buildLineFormat(&logql.LineFormat{Template: tmpl})
+		vsymAssert(err == nil, "line_format builds again")
+		line2 := vsymString("line2", 1)
+		out, _ = b.Process(ts2, line2, set)
+		vsymAssert(out == "1700000002: "+line2, "a second instance of the same template is bound to its own record")
+		out, _ = a.Process(ts2, line2, set)
+		vsymAssert(out == "1700000002: "+line2, "an instance is bound to the record of each call")
+	case 2: // label_format templates around a stage that rewrites the line
+		stage := func() *logql.LabelFormatExpr {
+			return &logql.LabelFormatExpr{Values: []logql.LabelTemplate{{Label: "orig", Template: `{{ .foo }}:{{ __line__ }}`}}}
+		}
+		p, err := BuildPipeline(stage(), &logql.LineFormat{Template: `rewritten`}, stage())
+		vsymAssert(err == nil, "pipeline builds")
+		out, keep := p.Process(ts1, line, set)
+		vsymAssert(keep && out == "rewritten" && verifNoErr(set), "the line is the line_format's")
+		v, ok := verifGet(set, "orig")
+		vsymAssert(ok && v == foo+":rewritten", "label_format expands over the line it is given")
+	case 3: // a repo function in a pipe, a missing label, a label set by an earlier template
+		p, err := BuildPipeline(
+			&logql.LabelFormatExpr{Values: []logql.LabelTemplate{{Label: "n", Template: `{{ __timestamp__ | unixEpochNanos }}`}, {Label: "m", Template: `<{{ .missing }}>`}}},
+			&logql.LineFormat{Template: `{{ .n }}/{{ .m }}/{{ .foo }}`},
+		)
+		vsymAssert(err == nil, "pipeline builds")
+		out, keep := p.Process(ts1, line, set)
+		vsymAssert(keep && verifNoErr(set), "no error")
+		vsymAssert(out == "1700000001000000000/<>/"+foo, "templates see the labels of the current record, a missing label expands to nothing")
+	default: // a failing function: the line stays, __error__ is set, later templates still run
+		p, err := BuildPipeline(
+			&logql.LabelFormatExpr{Values: []logql.LabelTemplate{{Label: "bad", Template: `{{ .foo | unixToTime }}`}, {Label: "good", Template: `{{ __line__ }}`}}},
+		)
+		vsymAssert(err == nil, "pipeline builds")
+		out, keep := p.Process(ts1, line, set)
+		vsymAssert(keep && out == line, "label_format never drops or changes the line")
+		vsymAssert(!verifNoErr(set), "a failing template flags __error__") // a 1-byte value is not a unix timestamp of 5/10/13/16/19 digits
+		_, hasBad := verifGet(set, "bad")
+		vsymAssert(!hasBad, "a failing template sets no label")
+		g, ok := verifGet(set, "good")
+		vsymAssert(ok && g == line, "the other templates of the stage are still expanded")
+	}
+	vsymReach("C07_template_binding")
+}
+
 // C08-O3: a formatting stage followed by a failing parser: every entry sits in
 // a stream that carries exactly its labels, the error labels included.
 func VerifHarness_C08_ErrorLabelsInStreams() {
